@@ -69,7 +69,8 @@ def type_section(rs_text):
             out += c.encode("utf-8")
             i += 1
     if len(out) != n:
-        raise ToolError(f"component-type byte string decodes to {len(out)} bytes, the array type says {n}")
+        # the static is under cfg(target_arch = "wasm32"): the host compiler never sees it, so this is ours to report
+        return {"declared": n, "decoded": len(out)}
     return bytes(out).hex()
 
 
@@ -109,6 +110,13 @@ def run(tier):
     for n, (u, j) in enumerate(zip(units, gen)):
         u["gen"] = j["res"]["status"]
         if u["gen"] != "ok":
+            # a valid world within the supported features must be generated: the generator giving up (or panicking, e.g. because
+            # --format cannot parse its own output) is this property's business as well
+            r_ = j["res"]
+            msg = r_.get("what") or r_.get("stderr", "")
+            msg = re.sub(r"`[^`]*`", "`_`", re.sub(r"\d+", "N", msg))[:100] if u["gen"] != "panic" else re.sub(r"\d+", "N", msg)[:100]
+            out.violation(f"generator:rust:{u['gen']}:{msg}", f"the Rust generator fails ({u['gen']}) on {os.path.basename(os.path.dirname(u['wit'])) if 'tests/codegen' not in u['wit'] else os.path.basename(u['wit'])} "
+                          f"[{u['variant'] or 'default'}]: {json.dumps(r_)[:300]}", {"wit": open(u["wit"]).read() if os.path.isfile(u["wit"]) else u["wit"], "args": u["args"], "res": r_})
             continue
         rs = [f for f in os.listdir(u["out"]) if f.endswith(".rs")]
         if len(rs) != 1:
@@ -149,6 +157,10 @@ def run(tier):
             continue
         text = open(u["rs"]).read()
         sec = type_section(text)
+        if isinstance(sec, dict):
+            out.violation("type-section-length", f"generated Rust for {name_of(u)} [{u['variant'] or 'default'}]: the embedded component-type byte string has "
+                          f"{sec['decoded']} bytes but is declared as [u8; {sec['declared']}] (does not compile for wasm32)", ctx_of(u))
+            continue
         if sec is None:
             out.violation("no-component-type-section", f"generated Rust for {name_of(u)} [{u['variant'] or 'default'}] embeds no component-type section", ctx_of(u))
             continue
